@@ -50,10 +50,11 @@ func (scHandshake) GenCfg(rng *sim.Rand, tier, prop, variant string) json.RawMes
 
 type hsWorld struct {
 	*PeerWorld
-	cfg   HSCfg
-	lep   tcpip.Endpoint
-	nport uint16
-	late  string // a finding that is reported only if the run ends without any other (known finding F25)
+	cfg    HSCfg
+	lep    tcpip.Endpoint
+	nport  uint16
+	late   string // a finding that is reported only if the run ends without any other (known finding F25)
+	late27 string // likewise (known finding F27)
 }
 
 func (w *hsWorld) net() tcpip.NetworkProtocolNumber {
@@ -273,13 +274,15 @@ func (w *hsWorld) passive(sub uint64) {
 	if kind == 1 {
 		if w.cfg.Cookie {
 			// classes whose invalidity does not depend on the cookie secret
-			switch r.Pick(1, 1) {
+			switch r.Pick(2, 2, 1) {
 			case 0:
 				delta = uint32(r.Range(4, 1000))
-			default:
+			case 1:
 				delta = 1<<31 + uint32(r.Intn(8))
+			default:
+				delta = uint32(r.Range(1, 3)) // just above the cookie (known finding F27: decodes as the same cookie with another MSS index)
 			}
-			if r.Chance(0.5) {
+			if r.Chance(0.5) && delta > 3 {
 				delta = -delta
 			}
 		} else {
@@ -348,6 +351,17 @@ func (w *hsWorld) passive(sub uint64) {
 		return
 	}
 	w.Probes["wrong_final_ack"]++
+	if ep != nil && w.cfg.Cookie && delta >= 1 && delta <= 3 {
+		// (reported at the end of the run only if nothing else turns up: it would hide the episodes that follow)
+		if w.late27 == "" {
+			w.late27 = fmt.Sprintf("Accept returned a connection although the final ACK acknowledged %d and the SYN-ACK's sequence number was %d (delta %d, cookie mode: an acknowledgement 1..3 above the cookie decodes as the same cookie with another MSS index)", ack, iss, int32(delta))
+		}
+		w.Probes["cookie_accepted_with_ack_slightly_too_high"]++
+		ep.Close()
+		w.Settle()
+		p.Mine(w.Take())
+		return
+	}
 	if ep != nil {
 		w.Fail("connection-from-wrong-ack", "", "Accept returned a connection although the final ACK acknowledged %d and the SYN-ACK's sequence number was %d (delta %d, cookie mode %v)", ack, iss, int32(delta), w.cfg.Cookie)
 		ep.Close()
@@ -793,6 +807,9 @@ func (scHandshake) Run(t *testing.T, prop string, seed uint64, cfgRaw json.RawMe
 		if n := tcp.VerifSynRcvdCount(); n != synRcvd0 && w.Viol == nil {
 			w.Probes["synrcvd_count_leaked"] += int64(n - synRcvd0)
 			w.Fail("half-open-slots-leaked", "", "%d handshake slot(s) are still counted as in progress although every handshake of the run ended more than 63 s ago: after enough of them listeners answer in SYN-cookie mode - and drop wrong ACKs silently - without any flood", n-synRcvd0)
+		}
+		if w.Viol == nil && w.late27 != "" {
+			w.Fail("connection-from-wrong-ack", "", "%s", w.late27)
 		}
 		if w.Viol == nil && w.late != "" {
 			w.Fail("ack-at-listener-not-reset", "", "%s", w.late)
